@@ -8,6 +8,7 @@ import (
 	"os"
 	"os/exec"
 	"path/filepath"
+	"runtime"
 	"strings"
 	"sync"
 	"time"
@@ -252,6 +253,66 @@ func c20HostFunctions(c *ev.Ctx) {
 			}
 		}
 	}
+	// a host function may use the evaluator's own API (SetVariable / GetVariable /
+	// AddFunction) while the script that called it is running: Run and Execute must both
+	// come back, with the same answer
+	if c.Want("hostfn/reentrant-api") {
+		for _, viaRun := range []bool{false, true} {
+			for _, noOpt := range []bool{false, true} {
+				var evr *eng.Evaluator
+				funcs := map[string]func([]object.Object) object.Object{
+					"setv": func(a []object.Object) object.Object {
+						evr.E.SetVariable(a[0].(*object.String).Value, a[1])
+						return &object.Boolean{Value: true}
+					},
+					"getv": func(a []object.Object) object.Object { return evr.E.GetVariable(a[0].(*object.String).Value) },
+					"addf": func(a []object.Object) object.Object {
+						evr.E.AddFunction("late", func([]object.Object) object.Object { return &object.Integer{Value: 42} })
+						return &object.Boolean{Value: true}
+					},
+				}
+				script := `ok = setv("k", 5); x = getv("k"); ok = addf(); foreach i in 1..3 { ok = setv("n", i); } return x == 5 && k == 5 && getv("n") == 3;`
+				var err error
+				evr, err = eng.New(script, eng.Options{NoOptimize: noOpt, Funcs: funcs})
+				c.Case(fmt.Sprint("hostfn/reentrant-api", viaRun, noOpt), true)
+				if err != nil {
+					c.Violation("hostfn/reentrant-api", "prepare", map[string]interface{}{"summary": err.Error(), "script": script})
+					continue
+				}
+				done := make(chan string, 1)
+				go func() {
+					if viaRun {
+						b, e, p, m := evr.RunBool(nil)
+						done <- fmt.Sprintf("%v err=%v panic=%v %s", b, e, p, m)
+					} else {
+						o := evr.Exec(nil)
+						done <- fmt.Sprintf("%v err=%v panic=%v %s", o.Desc() == "BOOLEAN:true", o.Err, o.Panicked, o.PanicMsg)
+					}
+				}()
+				select {
+				case got := <-done:
+					if got != "true err=<nil> panic=false " {
+						c.Violation("hostfn/reentrant-api", "host function using the evaluator's API", map[string]interface{}{"summary": fmt.Sprintf("%s via %s (noopt=%v) gives %s, expected true", script, apiName(viaRun), noOpt, got), "script": script})
+					}
+				case <-time.After(60 * time.Second):
+					// state-based verdict: is the calling goroutine parked on the evaluator's own lock?
+					buf := make([]byte, 4<<20)
+					buf = buf[:runtime.Stack(buf, true)]
+					blocked := ""
+					for _, g := range strings.Split(string(buf), "\n\n") {
+						if strings.Contains(g, "sync.(*Mutex).Lock") && strings.Contains(g, "evalfilter/v2.(*Eval).") && (strings.Contains(g, "(*Eval).Run(") || strings.Contains(g, "(*Eval).Execute(")) {
+							blocked = g
+						}
+					}
+					if blocked != "" {
+						c.Violation("hostfn/reentrant-api", "deadlock: host function using the evaluator's API", map[string]interface{}{"summary": fmt.Sprintf("%s via %s (noopt=%v) never returns: the goroutine is parked in Mutex.Lock below the evaluator's own call\n%s", script, apiName(viaRun), noOpt, clip(blocked, 1500)), "script": script})
+					} else {
+						c.Inconclusive("hostfn/reentrant-api: no answer within 60 s and no goroutine parked on the evaluator's lock")
+					}
+				}
+			}
+		}
+	}
 	// a host function replaces a built-in of the same name; calls in loops are counted
 	if c.Want("hostfn/loop") {
 		count := 0
@@ -291,7 +352,9 @@ func c20Orders(c *ev.Ctx) {
 	const script = `cnt = cnt + 1; r = hf(a, cnt); if (b) { a = a + Inc; } return [r, a, b, cnt];`
 	hfVariants := []func([]object.Object) object.Object{
 		func(a []object.Object) object.Object { return a[0] },
-		func(a []object.Object) object.Object { return &object.String{Value: a[0].Inspect() + ":" + a[1].Inspect()} },
+		func(a []object.Object) object.Object {
+			return &object.String{Value: a[0].Inspect() + ":" + a[1].Inspect()}
+		},
 		func(a []object.Object) object.Object { return &object.Integer{Value: int64(len(a)) * 100} },
 	}
 	n := c.Pick(400, 15000)
